@@ -590,8 +590,7 @@ def spec_layers(ctx):
     if not q:
         ctx.check_spec('source-layers-all', 'SourceLayers', 'MC_SourceLayers_all.cfg')
         ctx.check_spec('source-layers-support-guard', 'SourceLayers', 'MC_SourceLayers_support.cfg')      # the licensed guard
-        ctx.check_spec('source-layers-3A', 'SourceLayers', 'MC_SourceLayers_thoroughA.cfg')
-        ctx.check_spec('source-layers-3B', 'SourceLayers', 'MC_SourceLayers_thoroughB.cfg')
+        ctx.check_spec('source-layers-nl3', 'SourceLayers', 'MC_SourceLayers_nl3.cfg')       # three layers, components 2+1+1
         ctx.expect_refuted('source-layers-tangent-guard-components', 'SourceLayers', 'MC_SourceLayers_guardcomp.cfg', 'ProductOverComponents')
         ctx.expect_refuted('source-layers-top-guard', 'SourceLayers', 'MC_SourceLayers_guardtop.cfg', 'LayerByLayer')
         ctx.expect_refuted('source-layers-kmean-order', 'SourceLayers', 'MC_SourceLayers_kavgorder.cfg', 'OrderFree')
@@ -726,8 +725,8 @@ def run(ctx):
     ctx.expect_refuted('compose-as-found', 'MC_Compose', 'MC_Compose_asbuilt.cfg', 'NoStaleRead')
     # design mutant: the source total aliases the (shared) component work array -> the sum read is the last component
     ctx.expect_refuted('compose-aliased-total', 'MC_Compose', 'MC_Compose_alias.cfg', 'NoStaleRead')
-    # quick: the two C03 invariants of the acc family only (C01 checks the whole family on the bigger quick domain)
-    ctx.check_spec('product-rule', 'MC_Transmission', 'MC_Trans_acc_c03_quick.cfg' if q else 'MC_Trans_acc_thorough.cfg', timeout=1800)
+    # the two C03 invariants of the acc family (C01 checks the whole family; quick: on a bigger domain than this one)
+    ctx.check_spec('product-rule', 'MC_Transmission', 'MC_Trans_acc_c03_%s.cfg' % ctx.tier, timeout=1800)
     vecs = spec_layers(ctx)
     install_fixtures()
     try:
